@@ -75,6 +75,7 @@ def build_table(spec, origin=None):
         destinations=set(spec["dests"]),
         units=[c["unit"] for c in spec["cols"]],
         transposed=bool(spec.get("transposed", False)),
+        **({"strict_types": False} if spec.get("strict") is False else {}),
         **kw,
     )
 
